@@ -99,6 +99,16 @@ def _check(case):
             if o.baseobjects != [ob]:
                 fails.append({'observed': f'{key}.baseobjects = {o.baseobjects}', 'required': f'[{ob}]', 'class': 'base'})
     if moved:
+        # annotations: the name a consumer imported (from either location) is linked to the one documented object
+        from pydoctor import linker as _lk
+        from pydoctor.stanutils import flatten
+        for key, o in system.allobjects.items():
+            if isinstance(o, model.Function) and o.name == 'f' and o.parent.name in ('user', 'auser'):
+                for local in ('FromImpl', 'FromPkg'):
+                    html = flatten(_lk._AnnotationLinker(o).link_to(local, 'label'))
+                    if f'href="{ob.url}"' not in html:
+                        fails.append({'observed': f'{key}: annotation {local} is rendered as {html!r}', 'required': f'a link to {ob.url}',
+                                      'class': 'annotation'})
         # docstring cross-references by old or new qualified name (the linker's own resolution)
         from pydoctor import linker
         user = system.allobjects['pk.user']
